@@ -223,6 +223,22 @@ Definition order_test (p : policy) (es : list entry) (ch : list Z) (pm : list (l
                      && (if keep then stops_at_first_moment req keys else eqb_listZ (counts_of (zlen es) keys) req)
     | PRandom => eqb_listZ (counts_of (zlen es) keys) req
     | PBlockedRandom => stops_at_first_moment req keys && is_prefix keys (blocks_order pm)
-    | PGrouped gs => satisfied req keys && groups_in_order gs keys
+    | PGrouped gs => stops_at_first_moment req keys && groups_in_order gs keys
+    end
+  end.
+
+(* after the queue has reported empty: only silence, one empty notification per request, nothing remaining *)
+Definition after_empty_test (p : policy) (es : list entry) (ch : list Z) (pm : list (list Z)) (ns : list Z) (n : Z) : bool :=
+  negb (wf_queue p es && forallb (fun n => 0 <=? n) ns && (1 <=? n)) ||
+  match pops all_rep (qinit p es ch pm) ns with
+  | None => true
+  | Some (q, _, _) =>
+    negb (q_empty q) ||
+    match pop_buffer all_rep q n with
+    | Some (q', out, ev) =>
+      eqb_list eqb_osample out (repeat OZero (Z.to_nat n))
+      && match ev with [EEmpty] => true | _ => false end
+      && q_empty q' && (count_trials q' =? 0) && (count_requested q' =? count_requested q)
+    | None => false
     end
   end.
